@@ -230,8 +230,15 @@ func tenthText(k int) string {
 // directions.
 // numOfKind returns a number of the chosen Go numeric kind with its %v text.
 func numOfKind() (any, string) {
-	kind := verif.Choose("kind", 14)
+	kind := verif.Choose("kind", 15)
 	k := verif.IntRange("k", -12, 11)
+	if kind == 14 {
+		// float64 values whose %v text switches to exponent form, and other long texts
+		big := []float64{1e6, 2.5e6, -3e6, 1099511627776, 1e21, 123456789, 1e-7, 0.000123, 1e20, 21e20}
+		txt := []string{"1e+06", "2.5e+06", "-3e+06", "1.099511627776e+12", "1e+21", "1.23456789e+08", "1e-07", "0.000123", "1e+20", "2.1e+21"}
+		verif.Assume(k >= 0 && k < len(big))
+		return big[k], txt[k]
+	}
 	if kind >= 7 {
 		verif.Assume(k >= -3 && k <= 4) // the remaining integer kinds: a narrower value range
 	}
@@ -279,9 +286,9 @@ func numOfKind() (any, string) {
 
 func H_C15_kinds_str() {
 	num, text := numOfKind()
-	alphabet := "0129.-"
+	alphabet := "0125.-e"
 	if verif.Tier() > 0 {
-		alphabet = "0123456789.-"
+		alphabet = "0123456789.-e+"
 	}
 	s := verif.Str("s", 2, alphabet)
 	r := Compare(num, s)
